@@ -1,6 +1,7 @@
 (* RepairProofs1.v — the fail-safe source seen through "what is still to come": reads of a
    stream refining a cursor, ArchiveFileBlock::from on a (possibly cut) serialised block,
    'buf_fill and the 'content loop on a (possibly cut) content region. *)
+From MLA Require Import Limit.
 From MLA Require Import Base Stream Blocks Writer Repair RepairSpec.
 From Coq Require Import ZifyBool ZifyNat ZifyN.
 Open Scope N_scope.
@@ -23,6 +24,7 @@ Lemma prefix_nil_r {A} (a : list A) : prefix a [] -> a = [].
 Proof. intros [r Hr]. symmetry in Hr. apply app_eq_nil in Hr. tauto. Qed.
 
 Section Src.
+  Context {LIM : Limit}.
   Variable S : Stream.
   Variable w : bytes.
   Variable R : st S -> N -> Prop.
